@@ -406,7 +406,13 @@ func (l *lexer) next() rune {
 }
 
 func (l *lexer) nextToken() Token {
-	return <-l.tokens
+	tok, ok := <-l.tokens
+	if !ok {
+		// the lexer has stopped (after EOF or an error): keep answering EOF
+		// instead of zero tokens, so that no parser loop waits for more input
+		return Token{Kind: EOF}
+	}
+	return tok
 }
 
 func (l *lexer) peek() rune {
